@@ -1,5 +1,6 @@
 """C06 - UE IP pool: in range, exclusive, sticky, conserved."""
 import itertools
+import random
 from lib import *
 
 TARGETS = ["Props/C06.vo", "Run/Eval_C06.vo"]
@@ -148,10 +149,39 @@ def run(tier, seed, replay=None):
                 ck.fail("concurrent:" + o["violations"][0], "concurrent stress: " + "; ".join(o["violations"]), {"input": ci, "impl": o})
             if "panic" in o:
                 ck.fail("panic", "panic under concurrency: " + o["panic"], {"input": ci})
+        # many goroutines racing for ONE unknown session id (search support; needs the lookup and the allocation to be one critical section)
+        sin = [{"Cidr": "10.2.0.0/24", "G": g, "Rounds": (2500 if tier == "quick" else 20000), "Size": 256} for g in (4, 8, 16)]
+        sobs = run_harness(rb, "c06_same", sin, tag="c06_same")
+        for ci, o in zip(sin, sobs):
+            ck.evaluations += 1
+            if o.get("violations"):
+                ck.fail("concurrent:" + o["violations"][0], "goroutines asking at once for one unknown session: " + "; ".join(o["violations"]), {"input": ci, "impl": o})
+            if "panic" in o:
+                ck.fail("panic", "panic under concurrency: " + o["panic"], {"input": ci})
+        ck.notes["same_session_race"] = {"rounds": sum(c["Rounds"] for c in sin)}
     except HarnessError as e:
         txt = str(e)
         if "DATA RACE" in txt:
             ck.fail("data-race", "race detector report in IPPool stress", {"log": txt[-3000:]})
         else:
             ck.tie("race-enabled harness builds and runs", False, txt[-1500:])
+    # agent level: the addresses the control plane is told (Created PDR), rollback of rejected establishments and the
+    # four endings, on small pools with more sessions than addresses
+    try:
+        import l1
+        from props.l1common import run_l1
+        lcases = []
+        for k in range(120 if tier == "quick" else 1500):
+            sub = random.Random(rng.getrandbits(64))
+            cfg = l1.default_cfg(pool=sub.choice(["10.250.0.0/29", "10.250.0.8/30", "10.250.1.0/28"]))
+            case, intents, views = l1.random_history(sub, cfg=cfg, length=sub.choice([10, 18, 30]))
+            lcases.append((case, intents))
+        lobs = run_l1(binary, [c[0] for c in lcases], workers=8, tag="c06l1")
+        for (case, intents), ob in zip(lcases, lobs):
+            ck.evaluations += 1
+            for sig, msg, i in l1.mon_c06(case, intents, ob)[:1]:
+                ck.fail("agent:" + sig, msg, {"input": case, "event": i})
+        ck.notes["agent_level_histories"] = len(lcases)
+    except HarnessError as e:
+        ck.tie("agent-level histories run", False, str(e)[-800:])
     return ck.finish()
